@@ -129,6 +129,76 @@ Fixpoint djob_from (q : query) (evs : list event) (n : nat) (acc : list (list (l
   end.
 Definition djob (q : query) (evs : list event) : job_result := djob_from q evs 0 [].
 
+(* ================================================================================================ *)
+(* CMS miniAOD: the same programs with token-based retrieval                                         *)
+(* ================================================================================================ *)
+(* The miniAOD backend allocates one token name per collection use before anything else is named (so all other
+   names start after the tokens), declares the tokens as class members, initialises them in the booking code and
+   retrieves through them.  The per-event code is otherwise the CMS one.  Modelled as a pass over the CMS program:
+   the k-th retrieval (in program order) reads through token (t0 + k). *)
+Definition tok_name (i : nat) : string := nm "token" i.
+Definition handle_inner (ctype : string) : string := drop_last (substring 7 (String.length ctype - 7) ctype).   (* Handle<T> -> T *)
+Definition token_type (ctype : string) : string := "edm::EDGetTokenT<" +++ handle_inner ctype +++ ">".
+Definition mini_lines (ctype tok : string) : list string :=
+  [ctype +++ " result;"; "iEvent.getByToken(" +++ tok +++ ", result);"].
+
+Fixpoint tk_stmt (s : stmt) (t : nat) {struct s} : stmt * nat :=
+  match s with
+  | SFetch _ target ct bank _ => (SFetch "cms_miniaod" target ct bank (mini_lines ct (tok_name t)), S t)
+  | SFor x e b => let '(b', t') := tk_block b t in (SFor x e b', t')
+  | SIf c b None => let '(b', t') := tk_block b t in (SIf c b' None, t')
+  | SIf c b (Some b2) => let '(b', t1) := tk_block b t in (SIf c b' (Some b2), t1)   (* no else-arm holds a retrieval in these programs *)
+  | SBlk b => let '(b', t') := tk_block b t in (SBlk b', t')
+  | _ => (s, t)
+  end
+with tk_block (b : block) (t : nat) {struct b} : block * nat :=
+  match b with Blk ds body => let '(body', t') := tk_stmts body t in (Blk ds body', t') end
+with tk_stmts (l : stmts) (t : nat) {struct l} : stmts * nat :=
+  match l with
+  | SNil => (SNil, t)
+  | SCons s r => let '(s', t1) := tk_stmt s t in let '(r', t2) := tk_stmts r t1 in (SCons s' r', t2)
+  end.
+
+(* the retrievals of a program, in program order: (container type, bank) *)
+Fixpoint fetches_stmt (s : stmt) : list (string * string) :=
+  match s with
+  | SFetch _ _ ct bank _ => [(ct, bank)]
+  | SFor _ _ b => fetches_block b
+  | SIf _ b None => fetches_block b
+  | SIf _ b (Some _) => fetches_block b
+  | SBlk b => fetches_block b
+  | _ => []
+  end
+with fetches_block (b : block) : list (string * string) :=
+  match b with Blk _ body => fetches_stmts body end
+with fetches_stmts (l : stmts) : list (string * string) :=
+  match l with SNil => [] | SCons s r => fetches_stmt s ++ fetches_stmts r end.
+
+Fixpoint token_members (fs : list (string * string)) (t : nat) : list member :=
+  match fs with
+  | [] => []
+  | (ct, _) :: r => {| m_type := token_type ct; m_name := tok_name t |} :: token_members r (S t)
+  end.
+Fixpoint token_inits (fs : list (string * string)) (t : nat) : list string :=
+  match fs with
+  | [] => []
+  | (ct, bank) :: r =>
+      (tok_name t +++ " = consumes<" +++ handle_inner ct +++ ">(edm::InputTag(""" +++ bank +++ """));") :: token_inits r (S t)
+  end.
+
+(* the miniAOD program of a query: names start after the tokens *)
+Definition prog_q_mini (bk : backend) (q : query) (n0 : nat) : program :=
+  let nt := List.length (fetches_block (p_body (prog_q bk q n0))) in
+  let p := prog_q bk q (n0 + nt) in
+  let fs := fetches_block (p_body p) in
+  {| p_members := token_members fs n0 ++ p_members p;
+     p_tree := p_tree p;
+     p_branches := p_branches p;
+     p_book_extra := token_inits fs n0;
+     p_body := fst (tk_block (p_body p) n0) |}.
+Definition prog_for (bk : backend) (q : query) (n0 : nat) : program :=
+  if String.eqb (b_idiom bk) "cms_miniaod" then prog_q_mini bk q n0 else prog_q bk q n0.
+
 (* ---------- wire format ---------- *)
 Definition d_pcol (s : sexp) : option (string * pa) :=
   match s with
@@ -168,9 +238,9 @@ Definition run_fragq (s : sexp) : sexp :=
   | SList [SAtom idiom; SAtom tree; SAtom fill; q; n0] =>
       match d_query q, d_nat n0 with
       | Some q', Some n =>
-          let p := prog_q {| b_idiom := idiom; b_tree := tree; b_fill := fill |} q' n in
+          let p := prog_for {| b_idiom := idiom; b_tree := tree; b_fill := fill |} q' n in
           s_tag "ok" [s_strs (print_block (p_body p)); s_strs (print_members (p_members p));
-                      s_strs (map (fun b => br_name b +++ "=" +++ br_var b) (p_branches p))]
+                      s_strs (map (fun b => br_name b +++ "=" +++ br_var b) (p_branches p)); s_strs (p_book_extra p)]
       | _, _ => bad_input
       end
   | _ => bad_input
@@ -190,3 +260,4 @@ Definition run_denote_q (s : sexp) : sexp :=
       end
   | _ => bad_input
   end.
+
